@@ -24,7 +24,7 @@ MIN_COUNTERS = {'quick': {'exports_recognised': 300, 'onepass_sets_checked': 150
 BUDGET = {'quick': (600, 1500), 'thorough': (1800, 3600)}
 TECHNIQUE = 'runtime monitoring: grammar-recogniser monitor (independent RFC 4880 11.3 parser) + differential import comparison'
 
-SIGNERS = ['ed25519_0', 'rsa1024_0', 'dsa1024_0', 'ecdsa_p256_0', 'ecdsa_k256_0']
+SIGNERS = ['ed25519_0', 'rsa1024_0', 'dsa1024_0', 'ecdsa_p256_0', 'ecdsa_k256_0', 'rsa1024_1+alg3']   # the last: RSA under the deprecated sign-only identifier
 CONTENTS = ['empty', 'ascii', 'utf8', 'latin1', 'binary', 'crlf', 'big', 'far', 'latin1x', 'utf16', 'cp1252']
 
 
